@@ -172,6 +172,10 @@ def run(ctx):
             ('<pretty>', [('«1»a b', '«1»a_b')], 'pretty-printed part'),
             (docx(p(r('«1»page '), '<w:r><w:fldChar w:fldCharType="begin"/></w:r><w:r><w:instrText xml:space="preserve"> PAGE </w:instrText></w:r><w:r><w:fldChar w:fldCharType="end"/></w:r>', r('«2» PAGE of'))), [(' PAGE ', ' P\nG ')], 'needle also in a field code'),
         ]
+        # two valid spellings of the same toggle in adjacent runs: one uniformly formatted stretch, the needle spans the split (html on)
+        for spell_a, spell_b in (('<w:b/>', '<w:b w:val="true"/>'), ('<w:i w:val="1"/>', '<w:i w:val="on"/>'), ('', '<w:u w:val="none"/>')):
+            ctx.count('fixed:needle across runs that spell the same formatting differently (html on)')
+            one(ctx, docx(p(r('«1»start fo', spell_a), r('o end«2»', spell_b))), None, random.Random(1), tmpdir, True, pairs=[('foo', 'BAR')], nrewrites=0)
         for data, pairs, label in fixed:
             if data == '<pretty>':
                 data = docx('\n  ' + p('\n    ' + r('«1»a b') + '\n  ') + '\n  ' + p(r('«2»c d')) + '\n')
